@@ -12,6 +12,8 @@ package stubs
 //@   params rs, ctx, sym
 //@   modifies count(codegets)
 //@   ensures count(codegets) == old(count(codegets)) + 1
+// code handed out by the resource does not alias session memory (modelled as freshly allocated or nil)
+//@   ensures result0 == nil || fresh(result0)
 
 //@ iface (resource.Resource).GetTemplate
 //@   params rs, ctx, sym
